@@ -57,6 +57,7 @@ private def parse1 [Codec α] (s : Sexp) (tag : String) : Option α := do
   | _ => none
 
 instance [Codec α] : Codec (Dual α) := ⟨fun s => (parse1 s "dual").map Dual.mk, fun a => s!"(dual {Codec.render a.val})"⟩
+instance [Codec α] : Codec (DualLin α) := ⟨fun s => (parse1 s "dual").map DualLin.mk, fun a => s!"(dual {Codec.render a.val})"⟩
 instance [Codec α] : Codec (Rev α) := ⟨fun s => (parse1 s "rev").map Rev.mk, fun a => s!"(rev {Codec.render a.val})"⟩
 instance [Codec α] : Codec (Boxed α) := ⟨fun s => (parse1 s "box").map Boxed.mk, fun a => s!"(box {Codec.render a.val})"⟩
 instance [Codec α] : Codec (OrdLat α) := ⟨fun s => (parse1 s "ord").map OrdLat.mk, fun a => s!"(ord {Codec.render a.val})"⟩
